@@ -486,6 +486,14 @@ def run(ctx):
     lints.unused(ctx, "C07.PARAMS", ctx.py, (), ctx.cx)
     from .. import ffi
     ffi.rule_sig(ctx, "C07.FFI")
+    from ..core import borrow
+    from . import c01 as _c01
+    from .. import idx as _idx
+    # shared clause: every engine table is addressed in its one layout (C01.LAYOUT): the propensities read the constants and the
+    # reactant coefficients of their own (cell, reaction, species)
+    borrow(ctx, "C07", _c01.rule_layout, tu, _idx.Idx(tu), ctx.py)
+    from .. import lints as _l
+    _l.run(ctx, "C07", ctx.py, ["librdengine"])
     ctx.assume("NOT decided: that waiting times and event choices follow the master-equation distribution, the Poisson "
                "law of tau-leap counts, non-negativity of states, strict increase of time (distributional / value-level)")
     ctx.assume("chemostat exemption is C03.GUARD-ID; the pairing rule is shared with C02.PAIR")
